@@ -151,7 +151,28 @@ class Check:
         for t in thms:
             if t not in printed:
                 self.obligations.append((rel + ":" + t, True))
+        if self.tier == "thorough" and os.environ.get("VERIF_NO_COQCHK") != "1":
+            self._coqchk(rel)
         return True, None, out
+
+    def _coqchk(self, rel):
+        """thorough tier: re-check the compiled Props library and everything it depends on with the independent checker"""
+        lib = "QG." + rel[:-2].replace("/", ".")
+        rc, out = sh(["coqchk", "-silent", "-o", "-Q", COQ, "QG", lib], timeout=1500, cwd=COQ)
+        axioms = []
+        grab = False
+        for line in out.split("\n"):
+            if line.strip().startswith("* Axioms:"):
+                grab = True; continue
+            if grab:
+                if line.strip().startswith("*") or not line.strip():
+                    if line.strip().startswith("*"): grab = False
+                    continue
+                axioms.append(line.strip())
+        self.extra["coqchk"] = {"library": lib, "exit": rc, "axioms_of_all_loaded_libraries": axioms[:60], "tail": out.strip().split("\n")[-3:]}
+        self.obligations.append(("coqchk -o %s (independent checker)" % lib, rc == 0))
+        if rc != 0:
+            self.notes.append("coqchk failed: " + out[-300:])
 
     @staticmethod
     def _parse_assumptions(out):
